@@ -78,6 +78,21 @@ func condPhis(fn *ssa.Function) (phis map[*ssa.Phi]bool, inputs map[ssa.Value]bo
 		if iff, ok := b.Instrs[len(b.Instrs)-1].(*ssa.If); ok {
 			add(iff.Cond, 0)
 		}
+		// a returned error that was tested on the way (`if err == nil { … }; return err`): what the path learned
+		// about it decides whether this is a success or a failure exit (see mergedSuccessReturns)
+		if ret, ok := b.Instrs[len(b.Instrs)-1].(*ssa.Return); ok && len(ret.Results) > 0 {
+			last := len(ret.Results) - 1
+			if isErrorType(ret.Results[last].Type()) {
+				v := retOperand(ret, last)
+				switch x := v.(type) {
+				case *ssa.Const:
+				case *ssa.Phi:
+					add(x, 0)
+				default:
+					inputs[v] = true
+				}
+			}
+		}
 	}
 	return
 }
@@ -305,6 +320,12 @@ func threadInfoOf(fn *ssa.Function) *threadInfo {
 // atoms it establishes on the current path; visit (optional) sees every feasible If-edge traversal.
 // capped reports that the state bound was hit (the caller must then fall back to the path-insensitive search).
 func (ti *threadInfo) explore(fn *ssa.Function, barrier func(b *ssa.BasicBlock) int, blocked func(e edge, cands []Atom) bool, visit func(e edge, cands []Atom)) (limit map[*ssa.BasicBlock]int, capped bool) {
+	return ti.exploreStates(fn, barrier, blocked, visit, nil)
+}
+
+// exploreStates is explore with a callback for every (block, path state) reached: lim = number of leading
+// instructions of the block that are reachable in that state (all of them, or up to the barrier).
+func (ti *threadInfo) exploreStates(fn *ssa.Function, barrier func(b *ssa.BasicBlock) int, blocked func(e edge, cands []Atom) bool, visit func(e edge, cands []Atom), onState func(b *ssa.BasicBlock, lim int, env threadEnv)) (limit map[*ssa.BasicBlock]int, capped bool) {
 	limit = map[*ssa.BasicBlock]int{}
 	if len(fn.Blocks) == 0 {
 		return
@@ -353,10 +374,16 @@ func (ti *threadInfo) explore(fn *ssa.Function, barrier func(b *ssa.BasicBlock) 
 				if limit[b] < bi+1 {
 					limit[b] = bi + 1
 				}
+				if onState != nil {
+					onState(b, bi+1, st.env)
+				}
 				continue
 			}
 		}
 		limit[b] = len(b.Instrs)
+		if onState != nil {
+			onState(b, len(b.Instrs), st.env)
+		}
 		if len(b.Instrs) == 0 {
 			continue
 		}
@@ -582,4 +609,68 @@ func reachGuardedCanon(fn *ssa.Function, g guardSpec, canon func(string) string,
 		return nil
 	}
 	return limit
+}
+
+// retMaybeNil: a return whose error result is not a constant — `return x, err` where err may well be nil.
+// Used only when a function has no literal `return …, nil` left (the success and failure exits were merged into
+// one `return err`): such a return is a success return on exactly the paths on which the returned value is not
+// known to be non-nil.
+type retMaybeNil struct{}
+
+func (retMaybeNil) String() string { return "return …, nil" }
+func (retMaybeNil) Match(in ssa.Instruction) bool {
+	ret, ok := in.(*ssa.Return)
+	if !ok || len(ret.Results) == 0 {
+		return false
+	}
+	i := len(ret.Results) - 1
+	if !isErrorType(ret.Results[i].Type()) {
+		return false
+	}
+	v := retOperand(ret, i)
+	if _, isConst := v.(*ssa.Const); isConst {
+		return false
+	}
+	return !definitelyNot(v, true, true)
+}
+
+// mergedSuccessReturns decides Guard(fn, RetNil, g) for a function whose only error-typed returns are merged ones:
+// bad = positions of returns that are reachable, without g established, in a path state in which the returned value
+// may be nil (the phi it comes from resolved through the path, then constants and recorded facts consulted).
+func mergedSuccessReturns(p *Program, fn *ssa.Function, g guardSpec, rets []ssa.Instruction) (bad []string, ok bool) {
+	ti := threadInfoOf(fn)
+	helper, _ := helperGuardEdges(fn, g)
+	isRet := map[ssa.Instruction]bool{}
+	for _, r := range rets {
+		isRet[r] = true
+	}
+	seenBad := map[ssa.Instruction]bool{}
+	_, capped := ti.exploreStates(fn, aftersBarrier(g.afters), func(e edge, cands []Atom) bool {
+		if helper[e] {
+			return true
+		}
+		_, sat := satisfiesAny(g, cands)
+		return sat
+	}, nil, func(b *ssa.BasicBlock, lim int, env threadEnv) {
+		for i := 0; i < lim && i < len(b.Instrs); i++ {
+			in := b.Instrs[i]
+			if !isRet[in] || seenBad[in] {
+				continue
+			}
+			ret := in.(*ssa.Return)
+			v := env.through(retOperand(ret, len(ret.Results)-1))
+			if k, isConst := v.(*ssa.Const); isConst {
+				if !k.IsNil() {
+					continue
+				}
+			} else if eq, known := env.facts[threadFact{v, "nil"}]; known && !eq {
+				continue // known non-nil on this path: an error return
+			} else if definitelyNot(v, true, true) {
+				continue
+			}
+			seenBad[in] = true
+			bad = append(bad, p.InstrPos(in))
+		}
+	})
+	return bad, !capped
 }
